@@ -1,7 +1,47 @@
 import Driver.Util
-/-! Suite C05: line-protocol handlers (stub — replaced when the property's model is built). -/
+import Driver.Mac
+import LoraVerif.Gen.Session
+/-! Suite C05: `next_fcnt_down` (generated from session.rs) and MAC histories. -/
 namespace Driver.C05
+open Driver
 
-def handle (_ws : List String) : String := "bad-op"
+def showOpt : Option Int → String
+  | some v => toString v
+  | none => "none"
+
+def next (last : Option Int) (wire : Int) : Option Int := Gen.Session.next_fcnt_down last wire
+
+/-- the arithmetic specification of C05, executable: the unique N ≡ wire (mod 2^16) with
+last < N ≤ last + 16384 and N < 2^32; any wire value when there is no last -/
+def specNext (last : Option Int) (wire : Int) : Option Int :=
+  match last with
+  | none => some wire
+  | some l =>
+    -- candidates: same epoch and next epoch
+    let base := l - l % 65536
+    let c1 := base + wire
+    let c2 := base + 65536 + wire
+    let ok (n : Int) : Bool := decide (l < n) && decide (n ≤ l + 16384) && decide (n < 4294967296)
+    if ok c1 then some c1 else if ok c2 then some c2 else none
+
+def digest (f : Int → Option Int) : UInt64 := Id.run do
+  let mut h : Fnv := {}
+  for w in [0:65536] do
+    h := h.word (optWord (f (w : Int)))
+  return h.h
+
+def handle (ws : List String) : String :=
+  match ws with
+  | "mac" :: rest => s!"{Driver.Mac.run rest} ## oracle=ok|-"
+  | ["next", last, wire] =>
+    match parseInt? wire with
+    | some w =>
+      let l : Option Int := parseInt? last
+      s!"{showOpt (next l w)}|{showOpt (specNext l w)}"
+    | none => "bad-op"
+  | ["next_digest", last] =>
+    let l : Option Int := parseInt? last
+    s!"{hex64 (digest (next l))}|{hex64 (digest (specNext l))}"
+  | _ => "bad-op"
 
 end Driver.C05
